@@ -239,6 +239,14 @@ class World:
                     {"id": -1, "k": "rm_ws", "sub": rng.getrandbits(64), "h": dh, "keep": False, "t": {"by": op_id, "n": 0, "fb": 0, "want": "entity"}},
                     {**op, "sub": rng.getrandbits(64)},
                 ]
+            if kind == "mk_group" and op.get("cls") == "DrillholeGroup" and self.prop in ("C12", "C05", "C09", "C01") and orng.random() < 0.6:
+                # a drillhole group with files / comments of its own (kept outside the concatenated store)
+                self.pending = []
+                for extra in (["add_comment"], ["add_file"], ["add_comment", "add_file"])[orng.randrange(3)]:
+                    args2 = getattr(self, "gen_" + extra)(orng, h) or {}
+                    self.pending.append({"id": -1, "k": extra, "sub": rng.getrandbits(64), "h": h, "keep": False, **args2,
+                                         "t": {"by": op_id, "n": 0, "fb": 0, "want": "holder"}})
+                self.pending = [p for p in self.pending if len(p) > 6]
             if kind == "add_data" and op.get("pg") and op["assoc"] != "OBJECT" and orng.random() < 0.6:
                 # burst: more data of the same association into the same property group of the same object
                 self.pending = []
@@ -314,6 +322,8 @@ class World:
     # ---- creation ---------------------------------------------------------------------------
     def gen_mk_group(self, rng, h):
         cls = rng.choice(build.GROUP_CLASSES)
+        if self.prop == "C12" and rng.random() < 0.2:
+            cls = "DrillholeGroup"
         if self.cfg.get("version", 2.1) < 2.0 and cls == "DrillholeGroup" and rng.random() < 0.5:
             cls = "ContainerGroup"
         return {"cls": cls, "name": build.name(rng), "t": self.target(rng, h, "container")}
@@ -830,6 +840,16 @@ class World:
             t = None
         if rng.random() < (0.5 if self.prop == "C09" else 0.35):
             t = self.target(rng, h, "object", lambda r: bool(r.get("pgs")))
+        if self.prop == "C12" and rng.random() < 0.3:
+            # a drillhole group with files / comments of its own (with or without holes), preferably into the other workspace
+            model = self.h[h].model
+            t2 = self.target(rng, h, "groupish", lambda r: r.get("concat_group") and any(model.recs[c]["kind"] == "data" for c in r["children"]))
+            if t2 is not None:
+                dh = ("B" if h == "A" else "A") if "B" in self.h and rng.random() < 0.8 else h
+                d = self.target(rng, dh, "container", lambda r: not r.get("concat_group"))
+                if d is not None:
+                    self.sim.probe("copy_drillhole_group_with_own_data")
+                    return {"t": t2, "dh": dh, "d": d, "children": rng.random() < 0.9, "clear": rng.random() < 0.3}
         if t is None and rng.random() < 0.25 and self.copies:
             srcs = {c["src"] for c in self.copies if c["h"] == h} | {c["dst"] for c in self.copies if c["dh"] == h}
             t = self.target(rng, h, "entity", lambda r: r["uid"] in srcs)
